@@ -795,7 +795,10 @@ namespace BitSerializer::Convert::Utf
 				// Detecting UTF-32 (LE/BE)
 				if (i % sizeof(Utf32Le::char_type) == 0 && i + sizeof(Utf32Le::char_type) <= inputString.size())
 				{
-					if (const uint32_t sym = Memory::NativeToLittleEndian(*reinterpret_cast<const uint32_t*>(&inputString[i])); sym != 0)
+					// The data is copied by bytes (the source buffer may not be aligned for 32-bit access)
+					uint32_t rawSym;
+					std::memcpy(&rawSym, &inputString[i], sizeof rawSym);
+					if (const uint32_t sym = Memory::NativeToLittleEndian(rawSym); sym != 0)
 					{
 						if ((sym & 0b11111111111111110000000000000000) == 0)
 						{
@@ -812,7 +815,10 @@ namespace BitSerializer::Convert::Utf
 				// Detecting UTF-16 (LE/BE)
 				if (i % sizeof(Utf16Le::char_type) == 0 && i + sizeof(Utf16Le::char_type) <= inputString.size())
 				{
-					if (const uint16_t sym = Memory::NativeToLittleEndian(*reinterpret_cast<const uint16_t*>(&inputString[i])); sym != 0)
+					// The data is copied by bytes (the source buffer may not be aligned for 16-bit access)
+					uint16_t rawSym;
+					std::memcpy(&rawSym, &inputString[i], sizeof rawSym);
+					if (const uint16_t sym = Memory::NativeToLittleEndian(rawSym); sym != 0)
 					{
 						if ((sym & 0b1111111100000000) == 0)
 						{
